@@ -445,12 +445,16 @@ def evaluate(ctx, cases):
 def run(ctx):
     ctx.cov["rule"] = ("random histories of read/write/fetch/call/const/addressof/dlclose over 1-4 lib objects "
                        "(in-line and out-of-line mixed) opened on one gcc-compiled library (1-4 integer globals of "
-                       "9 C types, getter/setter functions, #define constants), 60% of the operations after the "
+                       "13 C types incl. enum-typed, pointer-typed and struct-typed globals, getter/setter functions, #define constants), 60% of the operations after the "
                        "first close aimed at closed libs, 4% undeclared names, 15% out-of-range values; plus a "
                        "directed history per library and mode touching every name before and after close. "
                        "Non-trivial = history with at least one access to a lib after its close; distinct by "
                        "(library, modes, ops). evaluations = operations executed on the implementation.")
     ctx.assumptions += [
+        "coq/C37/Gen.v: the statement lists of FFILibrary.__cffi_close__ (api.py, via ast), of dl_close_lib's "
+        "`if (dl_handle != NULL)` block and of ffi_dlclose's `if (libhandle != NULL)` block, regenerated on every run "
+        "(fail closed to the snapshot); the model's OpClose is defined from them, C37_gen_close_paths and all of "
+        "Proofs.v are re-proved on the current text",
         "hand-written model C37/Model.v of FFILibrary (api.py), dl_* (_cffi_backend.c), ffi_dlclose/cdlopen_fetch "
         "(cdlopen.c) and lib_getattr/lib_setattr caching (lib_obj.c); tied by this run's differential histories",
         "glibc dlopen/dlsym/dlclose; the test library is kept mapped by a guard handle, so a use-after-close shows "
